@@ -816,7 +816,7 @@ func (r *reporter) checkCertificate(m *model, c Cfg, p Pred, i int, o *connObs, 
 		// Config.Certificates: "The first certificate compatible with the peer's
 		// requirements is selected automatically."
 		want, firm := -1, false
-		cc, sc := curvesOf(c.CCurves), curvesOf(c.SCurves)
+		cc, sc := clientGroups(c.CCurves), curvesOf(c.SCurves)
 		for k, x := range certs {
 			strict, loose := v == V13, v == V13
 			if v <= V12 {
@@ -858,13 +858,19 @@ func cname(g uint16) string {
 		return "P-521"
 	case 29:
 		return "X25519"
+	case 4587:
+		return "SecP256r1MLKEM768"
+	case 4588:
+		return "X25519MLKEM768"
+	case 4589:
+		return "SecP384r1MLKEM1024"
 	}
 	return fmt.Sprintf("%#04x", g)
 }
 
 // checkGroup: the (EC)DHE group on the wire lies in both CurvePreferences lists.
 func (r *reporter) checkGroup(c Cfg, i int, o *connObs, si suiteInfo, known bool, viol func(int, string, string)) {
-	cc, sc := curvesOf(c.CCurves), curvesOf(c.SCurves)
+	cc, sc := clientGroups(c.CCurves), curvesOf(c.SCurves)
 	v := o.S.Version
 	both := func(g uint16, where string) {
 		inC, inS := has16(cc, g), has16(sc, g)
